@@ -1473,7 +1473,7 @@ def longitude_continuity(coordinates, region):
     region = np.array(region)
     region[:2] = w, e
     # Modify extra coordinates if passed
-    if coordinates:
+    if coordinates is not None and len(coordinates) > 0:
         # Run sanity checks for coordinates
         _check_geographic_coordinates(coordinates)
         longitude = coordinates[0]
